@@ -1,6 +1,7 @@
 package main
 
-// C14, second part: deterministic witnesses (F4 lock leak, K6 in-flight writer), truncation racing
+// C14, second part: deterministic recipes (F4 lock leak and lost wake-up: repaired, kept as regression probes; K6 in-flight
+// writer: open), truncation racing
 // writers and readers, and the pkg/database level (vlog truncator incl. CopySQLCatalog, SQL tables,
 // a document collection, restart).
 
@@ -35,7 +36,8 @@ func c14NewCase(r *hx.Result, label, dir string, F, io int) *c14Case {
 		ents: map[uint64]string{}, duals: map[[2]uint64]*store.DualProof{}}
 }
 
-// F4: the two deterministic recipes, sequential writer, one value log, chunk size 64.
+// F4 (repaired in /repo; the recipes stay and fail with c14SigLeak if the mutex is left held again): the
+// deterministic recipes, sequential writer, one value log, chunk size 64.
 func c14LeakProbes(r *hx.Result) error {
 	recipes := []struct {
 		name string
